@@ -345,8 +345,10 @@ class CohGen:
             if cand:
                 name = self.r.choice(cand)
         vals = [self.name(self.r.choice(['A', 'B', 'red', 'Dog', 'k'])) for _ in range(self.r.choice([1, 2, 3, 5]))]
-        if self.r.random() < self.f['keyword_enumerators']:
-            # enumerators that are keywords of the target language but fine C++ identifiers
+        scoped = self.r.random() < 0.5
+        if scoped and self.r.random() < 2 * self.f['keyword_enumerators']:
+            # enumerators that are keywords of the target language but fine C++ identifiers (scoped enums only: in an
+            # unscoped enum they would share their scope with functions and members that carry such names)
             kw = ['None', 'pass', 'in', 'from', 'yield', 'global', 'is'] if self.target == 'pybind' else \
                 ['end', 'global', 'function', 'otherwise', 'persistent', 'elseif', 'parfor']
             kw = [k for k in kw if k not in self._kw_used]      # (unscoped enums share their scope: each keyword once)
@@ -355,7 +357,7 @@ class CohGen:
                 self._kw_used.add(k)
                 vals.insert(self.r.randint(0, len(vals)), k)
         vals = tuple(vals)
-        kw = self.r.choice(['enum', 'enum class'])
+        kw = 'enum class' if scoped else 'enum'
         self.enums.append({'ns': self.cur_ns, 'cls': cls, 'name': name, 'vals': vals, 'kw': kw,
                            'templated': bool(cls and self.cur_templated)})
         return S.Enum(name, vals, kw)
